@@ -220,6 +220,8 @@ def _pairs_scalar(rng, n):
     L[2 * k:3 * k] = 0.0                # zero on one side
     R[3 * k:4 * k] = np.abs(R[3 * k:4 * k]); L[3 * k:4 * k] = np.abs(L[3 * k:4 * k])      # both positive
     R[4 * k:5 * k] = -np.abs(R[4 * k:5 * k]); L[4 * k:5 * k] = -np.abs(L[4 * k:5 * k])    # both negative
+    R[5 * k:6 * k] = L[5 * k:6 * k] * (1 + rng.choice([-1.0, 1.0], k) * 10 ** rng.uniform(-15, -3, k))     # nearly equal
+    R[6 * k:6 * k + k // 2] = -L[6 * k:6 * k + k // 2] * (1 + rng.choice([-1.0, 1.0], k // 2) * 10 ** rng.uniform(-15, -3, k // 2))   # nearly opposite
     return L, R
 
 
@@ -287,6 +289,9 @@ def pairs_sw(ctx, rng, idx):
     k = n // 10
     hR[:k] = hL[:k]
     hR[7 * k:8 * k] = hL[7 * k:8 * k]
+    # NEARLY equal states (every variable within 1e-15...1e-3 relative of its neighbour): not equal, so no shortcut applies
+    near = slice(8 * k, 9 * k)
+    hR[near] = hL[near] * (1 + rng.choice([-1.0, 1.0], k) * 10 ** rng.uniform(-15, -3, k)); mR[near] = mL[near] * (1 + rng.choice([-1.0, 1.0], k) * 10 ** rng.uniform(-15, -3, k))
     uL, uR = mL * np.sqrt(g * hL), mR * np.sqrt(g * hR)
     ctx.describe(model="shallowwater", g=g, flux=flux, hL=hL[:5], uL=uL[:5], hR=hR[:5], uR=uR[:5], npairs=n, huge_ratio=big)
     model = shw.shallowwater1d(g=g)
@@ -309,6 +314,9 @@ def pairs_euler1d(ctx, rng, idx):
     k = n // 10
     rR[:k], pR[:k] = rL[:k], pL[:k]
     rR[7 * k:8 * k], pR[7 * k:8 * k] = rL[7 * k:8 * k], pL[7 * k:8 * k]
+    near = slice(8 * k, 9 * k)      # NEARLY equal states
+    nr = lambda: 1 + rng.choice([-1.0, 1.0], k) * 10 ** rng.uniform(-15, -3, k)
+    rR[near], pR[near], mR[near] = rL[near] * nr(), pL[near] * nr(), mL[near] * nr()
     uL, uR = mL * np.sqrt(gam * pL / rL), mR * np.sqrt(gam * pR / rR)
     model = euler.euler1d(gamma=gam) if idx % 2 else euler.nozzle(lambda x: 1 + 0 * x, gamma=gam)
     gen.maybe_decoy(rng, 0.5)
